@@ -141,6 +141,16 @@ def pkAddData (rows : List (Row ι ο τ ν)) (observable : Option ο) :
      let data := maskObs rows o
      .ok ((uniq (data.map (·.id))).map (fun i => ⟨i, td (maskId dd i), tv (maskId data i)⟩)), rows)
 
+/-- the loop header of every `add_data`: `for index, _id in enumerate(ids)` with
+    `color = colors[index % n_colors]` — one iteration per entry of `ids`, whatever the size of the
+    colour table (`plotly.colors.qualitative.Plotly` has 10 entries); second component: colour index -/
+def colourLoop {β γ : Type} (nColors : Nat) (ids : List β) (body : β → γ) : List (γ × Nat) :=
+  ids.zipIdx.map (fun e => (body e.1, e.2 % nColors))
+
+/-- the slip `for _id, color in zip(ids, colors)`: stops with the shorter list -/
+def colourLoopZip {β γ : Type} (nColors : Nat) (ids : List β) (body : β → γ) : List (γ × Nat) :=
+  (ids.zip (List.range nColors)).map (fun e => (body e.1, e.2))
+
 /-- `PDTimeSeriesPlot.add_simulation`: one line trace with every row -/
 def addSimulation (rows : List (Row ι ο τ ν)) : List (τ × ν) × List (Row ι ο τ ν) := (tv rows, rows)
 
